@@ -58,7 +58,10 @@ mod verif_replay_s {
                         }
                         seen2.lock().unwrap().push(String::from_utf8_lossy(&buf).to_string());
                         if let Some(Some((st, body))) = script.get(k) {
-                            let _ = write!(s, "HTTP/1.1 {st} X\r\nContent-Type: text/xml\r\nContent-Length: {}\r\nConnection: close\r\n\r\n{}", body.len(), body);
+                            // a status >= 1000 stands for: status - 1000, announced with a Content-Length 10 bytes longer than what is sent
+                            // (the connection is closed after the headers and part of the body)
+                            let (st, cl) = if *st >= 1000 { (*st - 1000, body.len() + 10) } else { (*st, body.len()) };
+                            let _ = write!(s, "HTTP/1.1 {st} X\r\nContent-Type: text/xml\r\nContent-Length: {cl}\r\nConnection: close\r\n\r\n{}", body);
                         }
                         k += 1;
                     }
@@ -114,6 +117,19 @@ mod verif_replay_s {
             let reqs = seen.lock().unwrap().len();
             if reqs != 1 { println!("S|posts|connection closed before the response, credentials {}|{reqs} requests reached the server", creds.is_some()); }
             if r.is_ok() { println!("S|value-for-failed-exchange|connection closed before the response|returned Ok"); }
+        }
+        // transport failures: connection closed after the headers, before the announced end of the body (the part that did arrive
+        // may even be a complete envelope)
+        for (bname, body) in [("complete envelope, then closed early", good.clone()), ("half an envelope, then closed", good[..good.len() / 2].to_string()), ("headers only, then closed", String::new())] {
+            n += 1;
+            let (addr, seen, h, stop) = serve(vec![Some((1200, body.clone())), Some((200, good.clone()))]);
+            let client = reqwest::Client::new();
+            let r: SoapResult<Pong> = rt.block_on(super::helpers_content::send_for_verif(&client, &addr, None::<(&str, &str)>, Ping { text: "ping".into() }));
+            stop.store(true, std::sync::atomic::Ordering::SeqCst);
+            h.join().unwrap();
+            let reqs = seen.lock().unwrap().len();
+            if reqs != 1 { println!("S|posts|connection closed after the headers ({bname})|{reqs} requests reached the server"); }
+            if let Ok(p) = &r { println!("S|value-for-failed-exchange|connection closed after the headers ({bname})|returned Ok({p:?})"); }
         }
         // restriction violated: nothing may reach the server
         n += 1;
